@@ -28,8 +28,8 @@ CR, LF = 13, 10
 PAIR = [0xD83D, 0xDE00]
 
 
-def req(dia, size, pol, units, cuts):
-    return "bufscan %d %d %s %s %s" % (dia, size, pol, hexs(units), cuts)
+def req(dia, size, pol, units, cuts, ops=None):
+    return "bufscan %d %d %s %s %s" % (dia, size, pol, hexs(units), cuts) + (" " + ops if ops else "")
 
 
 def u(s):
@@ -154,6 +154,19 @@ def _generate(seed, tier):
         dia = r.choice([1, 2, 2])
         s = rand_stream(r, dia)
         yield req(dia, rand_size(r, len(s)), rand_pol(r), s, F.rand_cuts(r, s) if r.random() < 0.85 else r.choice(["-", "*1", "*2"]))
+    # 2b. the token manipulations of the grammar productions (TRIM_TOKEN, colon push-back) on the pending token, then the
+    #     pushed-back units are scanned again — with refills / buffer moves in between
+    OPTOK = ["a:b", ":x", "ab:cd:e", "'k':v", '"""t""":w', "\n;t\n;:z", "x\U0001F600y", "\U0001F600\U0001F600z", "q\ud83d", "abc", "{", "}", "1.5", "'q'"]
+    for _ in range(6000 if thorough else 700):
+        parts = []
+        for _ in range(r.randint(1, 6)):
+            parts.append(r.choice(OPTOK))
+            parts.append(r.choice([" ", "\n", "", " ", "\r\n"]))
+        s = u("".join(parts))
+        if r.random() < 0.3:
+            s = F.respell(r, [LF if x == CR else x for x in s])
+        yield req(2, rand_size(r, len(s)), rand_pol(r), s, F.rand_cuts(r, s) if r.random() < 0.8 else r.choice(["-", "*1", "*2"]),
+                  r.choice(["t", "c", "tc"]))
     # 3. random CIF documents of the fills family, re-spelled
     for _ in range(3000 if thorough else 300):
         d = F.respell(r, F.to_units(F.rand_doc(r)))
@@ -185,7 +198,7 @@ def agree(impl, model, req_=None):
 
 def oracle(req_, impl):
     t = req_.split(" ")
-    if len(t) != 6 or not impl.startswith("bs "):
+    if len(t) not in (6, 7) or not impl.startswith("bs "):
         return None
     a = _kv(impl)
     if a.get("ref") != "=":
@@ -210,7 +223,7 @@ def finding_class(req_, impl, model, why):
 
 def nontrivial(req_, impl):
     t = req_.split(" ")
-    if len(t) != 6:
+    if len(t) not in (6, 7):
         return False
     n = 0 if t[4] == "-" else len(t[4]) // 4
     return t[5] != "-" or "000d" in re.findall("....", t[4]) or int(t[2]) < n
@@ -218,7 +231,7 @@ def nontrivial(req_, impl):
 
 def classify(req_, impl):
     t = req_.split(" ")
-    if len(t) != 6:
+    if len(t) not in (6, 7):
         return "?"
     n = 0 if t[4] == "-" else len(t[4]) // 4
     size = int(t[2])
@@ -230,23 +243,25 @@ def classify(req_, impl):
     if a.get("buf", "-") != "-":
         last = int(a["buf"].split(",")[-1].split(":")[0])
         grown = "doubled" if last > size else "same"
-    return "v%s/%s/%s/%s/%s" % (t[1], sz, "1chunk" if t[5] == "-" else "chunked", grown, "accept" if t[3] == "a" else "reject")
+    return "v%s/%s/%s/%s/%s%s" % (t[1], sz, "1chunk" if t[5] == "-" else "chunked", grown, "accept" if t[3] == "a" else "reject",
+                                  "/ops-" + t[6] if len(t) == 7 else "")
 
 
 def shrink(req_):
     t = req_.split(" ")
-    if len(t) != 6:
+    if len(t) not in (6, 7):
         return
     dia, size, pol, doc, cuts = int(t[1]), int(t[2]), t[3], unhexs(t[4]), t[5]
+    ops = t[6] if len(t) == 7 else None
     for c in ("-", "*1", "*2"):
         if c != cuts and len(c) < len(cuts):
-            yield req(dia, size, pol, doc, c)
+            yield req(dia, size, pol, doc, c, ops)
     for sz in (2, 3, 4, 8):
         if sz < size:
-            yield req(dia, sz, pol, doc, cuts)
+            yield req(dia, sz, pol, doc, cuts, ops)
     n = len(doc)
     step = n // 2
     while step >= 1:
         for s in range(0, n, step):
-            yield req(dia, size, pol, doc[:s] + doc[s + step:], cuts)
+            yield req(dia, size, pol, doc[:s] + doc[s + step:], cuts, ops)
         step //= 2
